@@ -30,6 +30,7 @@ BASES = [("billion kcals", "thousand tons", "thousand tons"),
          ("million dry caloric tons", "million tons", "million tons"),
          ("ratio", "ratio", "ratio"),
          ("kcal", "g", "g"),
+         ("kcals", "grams fat", "grams protein"),
          ("widgets", "widgets", "widgets")]
 CONVERTIBLE = set(range(6))
 TARGETS = {"in_units_billions_fed": 2, "in_units_percent_fed": 1, "in_units_kcals_equivalent": 4,
